@@ -449,6 +449,13 @@ class IMAPClientCommand:
         #
         self.ready = asyncio.Event()
 
+        # If the mailbox management task hit an exception while preparing this
+        # command to run (eg: a message set outside of the mailbox) it is
+        # recorded here and re-raised by `ready_and_okay()` so that the client
+        # gets its tagged response instead of waiting for the command timeout.
+        #
+        self.mgmt_exception: Exception | None = None
+
         # when the task executing this IMAPClientCommand finished it sets
         # `completed` to True so that the mbox management task knows that this
         # command has finished.
@@ -466,6 +473,8 @@ class IMAPClientCommand:
         try:
             mbox.task_queue.put_nowait(self)
             await self.ready.wait()
+            if self.mgmt_exception is not None:
+                raise self.mgmt_exception
             if mbox.deleted:
                 from .mbox import NoSuchMailbox
 
